@@ -15,6 +15,13 @@
                                                                 is the GenDecl of the one spec looked
                                                                 for: at most one entry matches
                                                                 (lookup_first, C14_lookup_first)
+   gencommon/imports.go   ImportHandler.UseName  ih.imports    (added by fix 27a8c65) sets the inUse
+                                                                flag of every entry whose alias equals
+                                                                the given name: a conjunction of
+                                                                idempotent flag writes, no output is
+                                                                built in iteration order; the result
+                                                                list is produced by GetActive, which
+                                                                sorts (now by PkgPath, then Alias)
    gencommon/imports.go   ImportHandler.GetActive ih.imports   filter inUse, then sort.Slice by
                                                                 PkgPath; paths are the map's keys
                                                                 (get_active, C14_imports)
@@ -51,6 +58,7 @@ Local Open Scope string_scope.
 
 Definition expected : list (string * string * string * string * string) := [
   ("gencommon", "comments.go", "CommentsFromObj", "cmap", "map[ast.Node][]*ast.CommentGroup");
+  ("gencommon", "imports.go", "ImportHandler.UseName", "ih.imports", "map[string]*gencommon.ImportDesc");
   ("gencommon", "imports.go", "ImportHandler.GetActive", "ih.imports", "map[string]*gencommon.ImportDesc");
   ("gencommon", "interface.go", "allpkgs.findPKgByName", "pkg.Imports", "map[string]*packages.Package");
   ("gencommon", "interface.go", "allpkgs.namedTypeToInterface", "methodsToAdd", "map[string]*gencommon.Method");
@@ -62,4 +70,35 @@ Definition expected : list (string * string * string * string * string) := [
 Lemma tie_map_ranges : gen_map_ranges = expected.
 Proof. reflexivity. Qed.
 
+(* Process-wide state.  gen_pkg_state lists every package-level variable of the generator
+   packages whose type is not a basic type: state that survives from one generation to the next
+   inside one process ("repeated runs in one process").  Accounted for:
+
+   gencommon ErrorInterface / ContextInterface   set once in init() from the standard library,
+                                                  read only afterwards
+   gencommon iFaceCache (+ iFaceCacheMu)          memo of FindIFaceDef keyed by "<package path>.<type
+                                                  name>" of the interface looked up; callers pass
+                                                  standard-library / yaml.v3 interfaces, whose
+                                                  definition does not depend on the package being
+                                                  generated: a pure function of its key
+   genum/gerror/gsort  *template.Template         parsed once at package initialisation from the
+                                                  embedded template text, only executed afterwards
+
+   A new cache (map, sync.Map, slice, pointer ...) at package level breaks this tie; ./check C14
+   then runs the widened search, whose twin-package batches generate equally named types of
+   different packages in one process in both orders.                                          *)
+Definition expected_state : list (string * string * string * string) := [
+  ("gencommon", "defined_interfaces.go", "ContextInterface", "*types.Interface");
+  ("gencommon", "defined_interfaces.go", "ErrorInterface", "*types.Interface");
+  ("gencommon", "defined_interfaces.go", "iFaceCache", "map[string]*types.Interface");
+  ("gencommon", "defined_interfaces.go", "iFaceCacheMu", "sync.Mutex");
+  ("genum/gen", "generate.go", "enumTemplate", "*template.Template");
+  ("gerror/gen", "generate.go", "sortTemplate", "*template.Template");
+  ("gsort/gen", "generate.go", "sortTemplate", "*template.Template")
+].
+
+Lemma tie_pkg_state : gen_pkg_state = expected_state.
+Proof. reflexivity. Qed.
+
 Print Assumptions tie_map_ranges.
+Print Assumptions tie_pkg_state.
